@@ -54,7 +54,7 @@ CHECKS.update({
  "C17": ("post-condition on the real identify_district_variables: answer evaluated on K exact random SCMs vs Q[C](v)=P(c|do(v-c)) for all v; assume/guarantee contracts on the internal lemma routines (compute_c_factor, Lemma 1/4, compute_ancestral_set_q_value); failures compared with the Tian-Pearl set recursion (O4)",
          "Every returned c-factor expression is compared with the model's own Q[C] on all assignments; every internal lemma call whose input denotes Q of its set must return Q of the requested set. Held = equal everywhere evaluated.",
          "trusts O1/O2; sampled models (n<=5)", "DESIGN §4 C17"),
- "C18": ("post-condition on the real make_counterfactual_graph (own workload + the calls ID* makes): relabelled event evaluated in the ORIGINAL model on K functional SCMs with shared noise (exact) vs the original event; 'inconsistent' refuted by a positive-probability witness model; structural clauses on the returned graph by reference set algebra; input snapshots",
+ "C18": ("post-condition on the real make_counterfactual_graph (own workload + the calls ID* makes): relabelled event evaluated in the ORIGINAL model on K functional SCMs with shared noise (exact) vs the original event; 'inconsistent' refuted by a positive-probability witness model; structural clauses on the returned graph by reference set algebra; input snapshots; on-raise observer (an exception on an event without a self-intervened event variable is a violation)",
          "Probability preservation, the only-if clause of 'inconsistent', the structural clauses and what the returned graph claims about the relabelled event (independence across connected components / of m-separated event variables) are decided on every call. Held = no monitor fired.",
          "trusts O1 multi-world evaluation and O3; sampled models", "DESIGN §4 C18"),
  "C07": ("post-condition on the real id_star: expression read per DESIGN §3 (event values, literal subscripts with Sum-bound override tried both ways, universal reading of unvalued free variables, existential reading of doubly valued names) vs P(event) on K functional SCMs with shared noise (exact); Zero refuted by witness models; exception recorder; finding predicates from wrapped line-6/line-9 helpers",
